@@ -1,7 +1,7 @@
 (* C13/Properties.v -- pinned statements of property C13 (SPARQL evaluation returns exactly the
    algebra's solutions or 'not implemented').  Strings are lists of code points: tag:a is
    [116;97;103;58;97], ... (this file is generated once from readable text, see the comments). *)
-From Sophia.C13 Require Import Model Maps BgpProofs Proofs NumModel NumProofs Eval.
+From Sophia.C13 Require Import Model Maps BgpProofs Proofs NumModel NumProofs Eval Exists ExistsProofs ExistsSubst.
 From Coq Require Import Permutation.
 
 (* ===== (1) the engine (after fixes c, d, e) computes the algebra ===== *)
@@ -185,6 +185,142 @@ Proof. vm_compute. repeat split. Qed.
 Example sorter_id_perm : forall c l, Permutation (sorter CL c l) l.
 Proof. intros. apply Permutation_refl. Qed.
 
+
+(* ===== (5) the representation of an integer is not observable =====
+   + - * on a BigInt operand keep their result as a BigInt even when it fits an isize again
+   (computed_bigint_in_range below); [num_sim] relates the representations of one number:
+   every comparison (= != < <= > >=, IN) and every arithmetic operator treats them alike *)
+Check (cmp_sim : forall F a a' b b', num_sim F a a' -> num_sim F b b' ->
+  num_cmp F a b = num_cmp F a' b').
+Check (eq_sim : forall F a a' b b', num_sim F a a' -> num_sim F b b' ->
+  num_eq F a b = num_eq F a' b').
+Check (cmp_normalize : forall F a b, num_cmp F (normalize F a) (normalize F b) = num_cmp F a b).
+Check (cmp_bigint_native : forall F x y,
+  num_cmp F (BigInt F x) (NativeInt F y) = Some (x ?= y)%Z
+  /\ num_cmp F (NativeInt F x) (BigInt F y) = Some (x ?= y)%Z).
+Check (add_sim : forall F a a' b b', num_sim F a a' -> num_sim F b b' -> osim F (add F a b) (add F a' b')).
+Check (sub_sim : forall F a a' b b', num_sim F a a' -> num_sim F b b' -> osim F (sub F a b) (sub F a' b')).
+Check (mul_sim : forall F a a' b b', num_sim F a a' -> num_sim F b b' -> osim F (mul F a b) (mul F a' b')).
+Check (div_sim : forall F a a' b b', num_sim F a a' -> num_sim F b b' -> osim F (div F a b) (div F a' b')).
+Check (neg_sim : forall F a a', num_sim F a a' -> osim F (neg F a) (neg F a')).
+Check (abs_sim : forall F a a', num_wf F a -> num_wf F a' -> num_sim F a a' ->
+  num_sim F (abs F a) (abs F a')).
+Check (normalize_sim : forall F n, num_sim F (normalize F n) n).
+Example computed_bigint_in_range :
+  sub trivF (BigInt trivF 100000000000000000030) (BigInt trivF 100000000000000000000) = Some (BigInt trivF 30)
+  /\ mul trivF (BigInt trivF 100000000000000000000) (NativeInt trivF 0) = Some (BigInt trivF 0)
+  /\ num_eq trivF (BigInt trivF 30) (NativeInt trivF 30) = true
+  /\ num_cmp trivF (NativeInt trivF 35) (BigInt trivF 30) = Some Gt
+  /\ num_cmp trivF (BigInt trivF 0) (NativeInt trivF 1) = Some Lt
+  /\ ceval (CEqual (CSubtract (CConst (LitDt [49;48;48;48;48;48;48;48;48;48;48;48;48;48;48;48;48;48;48;51;48] (xsd s_integer)))
+                              (CConst (LitDt [49;48;48;48;48;48;48;48;48;48;48;48;48;48;48;48;48;48;48;48;48] (xsd s_integer))))
+                   (CConst (LitDt [51;48] (xsd s_integer)))) [] = Some (vbool true).
+Proof. vm_compute. repeat split. Qed.
+
+(* ===== (6) EXISTS (Exists.v): the group is evaluated by the same select, from the whole current
+   solution, on the active graph ===== *)
+(* conservative extension: without EXISTS, the model with EXISTS is the model above *)
+Check (wselect_embed : forall qm gnames (p : cpattern) gm b,
+  wselect qm gnames (embed_p p) gm b = select CL qm gnames p gm b).
+Check (wrun_select_embed : forall D ds (p : cpattern),
+  wrun_query D (WSelect ds (embed_p p)) = run_query CL D (QSelect ds p)).
+Check (wrun_ask_embed : forall D ds (p : cpattern),
+  wrun_query D (WAsk ds (embed_p p)) = run_query CL D (QAsk ds p)).
+(* a BGP started from a solution only extends it, whatever the dataset answers *)
+Check (bgp_rec_extends : forall qm gm ps b r, In r (bgp_rec qm ps b gm) -> ext b r).
+(* a group (no sub-select) evaluated from an outer solution b0: every solution extends b0, and
+   the variables of b0 are in the variable list (a BIND of the group cannot override them
+   silently) -- so FILTER, BIND, nested EXISTS and GRAPH inside the group see ALL the variables of
+   the outer solution, also those that occur in none of its triple patterns (18.6: substitute) *)
+Check (group_carries_outer_solution : forall qm gnames (p : wpat), group_p p = true ->
+  forall gm b0, carries b0 (wselect qm gnames p gm (Some b0))).
+Check (group_sees_outer_variables : forall qm gnames (p : wpat) gm b0 vs rows r v t,
+  group_p p = true -> wselect qm gnames p gm (Some b0) = Ok vs rows -> In r rows ->
+  lookup v (bv b0) = Some t -> lookup v (bv r) = Some t).
+Check (exists_total : forall qm gnames p b gm,
+  exists t, weval qm gnames (WExists p) b gm = Some (vbool t)).
+Check (exists_filter_only : forall qm gnames e b gm,
+  weval qm gnames (WExists (WFilter e (WBgp []))) b gm
+  = Some (vbool (wkeep (weval qm gnames e b gm)))).
+Check (exists_filter_rows : forall qm gnames e i b gm vs rows,
+  group_p i = true -> wselect qm gnames i gm (Some b) = Ok vs rows ->
+  weval qm gnames (WExists (WFilter e i)) b gm
+  = Some (vbool (existsb (fun r => wkeep (weval qm gnames e r gm)) rows))
+  /\ forall r, In r rows -> ext b r).
+Check (not_exists_is_negation : forall qm gnames p b gm t,
+  weval qm gnames (WExists p) b gm = Some (vbool t) ->
+  weval qm gnames (WNot (WExists p)) b gm = Some (vbool (negb t))).
+(* non-vacuity: a 30 . b 25 . c 35 (tag:n), a p b . a p c . b p c:
+   SELECT ?x { ?x <tag:n> ?a FILTER EXISTS { ?x <tag:p> ?y . ?y <tag:n> ?b FILTER(?b > ?a) } }  = a, b
+   (?a occurs in no triple pattern of the group), NOT EXISTS = c; and a nested EXISTS whose
+   innermost group is the only place where ?x occurs *)
+Definition tn := Iri [116;97;103;58;110].
+Definition int_ (s : str) : term := LitDt s (xsd s_integer).
+Definition D2 : dataset :=
+  [((ta, tn, int_ [51;48]), None); ((tb, tn, int_ [50;53]), None); ((tc, tn, int_ [51;53]), None);
+   ((ta, tp, tb), None); ((ta, tp, tc), None); ((tb, tp, tc), None)].
+Definition vx_ := [120]. Definition va_ := [97]. Definition vb_ := [98]. Definition vy_ := [121].
+Definition older : wpat :=
+  WFilter (WGreater (WVar vb_) (WVar va_)) (WBgp [(pv vx_, PConst tp, pv vy_); (pv vy_, PConst tn, pv vb_)]).
+Definition ages : wpat := WBgp [(pv vx_, PConst tn, pv va_)].
+Example exists_correlated :
+  wrun_query D2 (WSelect None (WProject (WFilter (WExists older) ages) [vx_])) = ARows [vx_] [[Some ta]; [Some tb]]
+  /\ wrun_query D2 (WSelect None (WProject (WFilter (WNot (WExists older)) ages) [vx_])) = ARows [vx_] [[Some tc]]
+  /\ wrun_query D2 (WSelect None (WProject (WFilter
+        (WExists (WFilter (WExists (WBgp [(pv vx_, PConst tp, pv vy_)])) (WBgp [(pv vy_, PConst tn, PConst (int_ [51;53]))])))
+        ages) [vx_])) = ARows [vx_] [[Some ta]; [Some tb]]
+  /\ wrun_query D2 (WSelect None (WProject (WFilter
+        (WExists (WFilter (WGreater (WVar va_) (WConst (int_ [50;54]))) (WBgp []))) ages) [vx_]))
+     = ARows [vx_] [[Some ta]; [Some tc]].
+Proof. vm_compute. repeat split. Qed.
+
+(* ===== (7) EXISTS computes 18.6: evaluating the group from the outer solution b0 (what the engine
+   does) is evaluating substitute(group, b0) from scratch, for groups of BGP / FILTER / UNION /
+   GRAPH / BIND, whatever the dataset answers provided it only returns matching triples;
+   [over b0 r1 r2]: r1 is b0 overlaid on r2 ===== *)
+Check (select_subst : forall b0 qm,
+  (forall m gm t, In t (qm m gm) -> matches3 m t = true) ->
+  forall gnames (p : cpattern), sgroup (bv b0) p = true -> bn_fresh (bb b0) p = true ->
+  forall gm, rel b0 (select CL qm gnames p gm (Some b0)) (select CL qm gnames (subst_p (bv b0) p) gm None)).
+Check (bgp_rec_subst : forall b0 qm,
+  (forall m gm t, In t (qm m gm) -> matches3 m t = true) ->
+  forall gm ps, forallb (fresh3 b0) ps = true -> forall r1 r2, over b0 r1 r2 ->
+  Forall2 (over b0) (bgp_rec qm ps r1 gm) (bgp_rec qm (map (subst_tp3 (bv b0)) ps) r2 gm)).
+Check (ceval_subst : forall b0 e r1 r2, over b0 r1 r2 -> sgroup_e (bv b0) e = true ->
+  ceval e (bv r1) = ceval (subst_e (bv b0) e) (bv r2)).
+(* with select_correct: FILTER EXISTS { p } keeps the solution b0 iff the algebra's
+   eval(D(g), substitute(p, b0)) is not empty; NOT EXISTS iff it is empty *)
+Check (exists_is_substitution : forall D g (p : cpattern) b0,
+  NoDup D -> sgroup (bv b0) p = true -> bn_fresh (bb b0) p = true ->
+  no_override CL (subst_p (bv b0) p) = true ->
+  weval (ds_qm D) (ds_names D) (WExists (embed_p p)) b0 [g] = Some (vbool (exists_spec D g p (bv b0)))).
+Check (not_exists_is_substitution : forall D g (p : cpattern) b0,
+  NoDup D -> sgroup (bv b0) p = true -> bn_fresh (bb b0) p = true ->
+  no_override CL (subst_p (bv b0) p) = true ->
+  weval (ds_qm D) (ds_names D) (WNot (WExists (embed_p p))) b0 [g]
+  = Some (vbool (negb (exists_spec D g p (bv b0))))).
+(* non-vacuity: the hypotheses hold for the group `older` above in the solutions of `ages`, and
+   the specification separates them *)
+Definition older_c : cpattern :=
+  cFilter (CGreater (CVar vb_) (CVar va_)) (Bgp [(pv vx_, PConst tp, pv vy_); (pv vy_, PConst tn, pv vb_)]).
+Definition sol (x : term) (a : str) : binding := mkB [(va_, int_ a); (vx_, x)] [].
+Example exists_spec_example :
+  embed_p older_c = older
+  /\ sgroup (bv (sol ta [51;48])) older_c = true /\ bn_fresh (bb (sol ta [51;48])) older_c = true
+  /\ no_override CL (subst_p (bv (sol ta [51;48])) older_c) = true
+  /\ subst_p (bv (sol ta [51;48])) older_c
+     = cFilter (CGreater (CVar vb_) (CConst (int_ [51;48])))
+               (Bgp [(PConst ta, PConst tp, pv vy_); (pv vy_, PConst tn, pv vb_)])
+  /\ exists_spec D2 None older_c (bv (sol ta [51;48])) = true
+  /\ exists_spec D2 None older_c (bv (sol tb [50;53])) = true
+  /\ exists_spec D2 None older_c (bv (sol tc [51;53])) = false
+  /\ NoDup D2.
+Proof.
+  repeat split.
+  all: try (vm_compute; reflexivity).
+  unfold D2. repeat (constructor; [cbn [In]; intuition discriminate|]). constructor.
+Qed.
+
 Print Assumptions bgp_rec_is_spec.
 Print Assumptions select_correct.
 Print Assumptions select_query_correct.
@@ -218,3 +354,32 @@ Print Assumptions graph_empty_refuted.
 Print Assumptions project_scope_refuted.
 Print Assumptions graph_var_scope_refuted.
 Print Assumptions nonvacuous.
+Print Assumptions cmp_sim.
+Print Assumptions eq_sim.
+Print Assumptions cmp_normalize.
+Print Assumptions cmp_bigint_native.
+Print Assumptions add_sim.
+Print Assumptions sub_sim.
+Print Assumptions mul_sim.
+Print Assumptions div_sim.
+Print Assumptions neg_sim.
+Print Assumptions abs_sim.
+Print Assumptions normalize_sim.
+Print Assumptions computed_bigint_in_range.
+Print Assumptions wselect_embed.
+Print Assumptions wrun_select_embed.
+Print Assumptions wrun_ask_embed.
+Print Assumptions bgp_rec_extends.
+Print Assumptions group_carries_outer_solution.
+Print Assumptions group_sees_outer_variables.
+Print Assumptions exists_total.
+Print Assumptions exists_filter_only.
+Print Assumptions exists_filter_rows.
+Print Assumptions not_exists_is_negation.
+Print Assumptions exists_correlated.
+Print Assumptions select_subst.
+Print Assumptions bgp_rec_subst.
+Print Assumptions ceval_subst.
+Print Assumptions exists_is_substitution.
+Print Assumptions not_exists_is_substitution.
+Print Assumptions exists_spec_example.
